@@ -118,3 +118,16 @@ C("C14", "TestC14", P(3000), P(20000, 16, 1500), level="translation_validation",
   level_text="Every generated output file is validated against its source records by a decoder that shares no code with the repository; a symmetric writer/reader change cannot pass. " + BOUNDED,
   level_note="Trusted base: specdec (about 600 lines, Go standard library only: compress/zlib, hash/crc32) and its reading of the specification; whether a file is padded is told to it by the harness (the header does not record it).",
   assumptions=[DOMAIN, "the decoder's reading of the reftable specification (reftable.md of JGit/git) is right"])
+
+SCHED = "interleavings are explored at the granularity of the package-level filesystem calls of the stack code (source-rewritten copy, real filesystem on tmpfs); File.Write is not a yield point unless stated"
+
+C("C04", "TestC04", P(3000), P(8000, 16, 2400), pkg="conc", flavour="inst",
+  rule="rapid-generated (initial stack of 0..5 sequential transactions, 2..4 process programs of 1..4 operations from {Open, Add, multi-table Addition (committed/abandoned), CompactAll, CompactAll with expiry, AutoCompact, Read, Close, Clean}, auto-compaction per handle, schedule from {uniform picks, PCT with 0..3 priority changes, windowed}); "
+       "every transaction writes a ref unique to it; oracle M4: after every rename onto tables.list the state decoded from disk by specdec must equal the previous state, or previous state + the transaction of the Add in progress, or the expiry of the previous state; Add returns nil iff its transition happened; errors only ErrLockFailure; fresh NewStack at the end == last version; "
+       "thorough adds the exhaustive single pre-emption enumeration over all ordered pairs of 8 operation kinds x 3 initial stacks x 2 hash ids and double pre-emption of (CompactAll, Add, Add); "
+       "non-trivial = operations of two processes overlap and one is a commit or compaction; distinct = hash of the case JSON (enumerated schedules are distinct by construction)",
+  technique="property-based testing over schedules: deterministic scheduler owning every filesystem-call interleaving (rapid-drawn PCT/windowed/uniform schedules, bounded exhaustive pre-emption) with a history invariant decoded independently from disk",
+  level_text="Generated and (thorough) bounded-exhaustive schedules of the real stack code at filesystem-call granularity; linearizability is judged per list transition against transactions applied in commit order. " + BOUNDED,
+  level_note="Trusts the instrumenter (syntactic redirect of os/ioutil/time calls), the shim and POSIX semantics of the real filesystem; " + SCHED,
+  assumptions=["no I/O faults", SCHED, "transactions are legal (conflict-free names) so content rejection does not occur"],
+  exhaustive_part="thorough tier: single pre-emption of every ordered pair of operation kinds at every filesystem call, double pre-emption of (CompactAll, Add, Add)")
